@@ -449,7 +449,7 @@ def universe(kind, n, maxe=0, k=3, w=3, l=0, cap=12, scheme="plain", parts=16, z
     if os.path.exists(path):
         return read_ndjson(path)
     sc = scratch_dir()
-    parts = parts if kind == "cyc" and n >= 4 else 1
+    parts = parts if kind == "cyc" and n >= 4 else (6 if kind == "motif" else 1)
     outs = [os.path.join(sc, f"u{p}.ndjson") for p in range(parts)]
 
     def one(p):
